@@ -42,6 +42,9 @@ def boxedGenerate (esz ealign n : Nat) (f : Nat → Option Id) (allocOk : Bool) 
   if !noAlloc && !allocOk then
     if Alloc.boxedNullChecked then ⟨acq.1 ++ [.handleAllocError], [], .aborted⟩
     else ⟨acq.1 ++ [.nullDeref], [], .ub⟩
+  else if noAlloc && !Alloc.boxedDanglingAligned && decide (1 < ealign) then
+    -- `&mut *ptr` and the returned `Box` on an address that is not a multiple of the alignment (C01)
+    ⟨[], [], .ub⟩
   else
     match fillLoop Alloc.boxedWriteBeforeCount true (genSrc f) n 0 [] with
     | (tr, .full out _) =>
